@@ -118,7 +118,7 @@ func Basket() Spec {
 		fix(Take(B, NCT, "1", false)),
 		fix(Take(B, NCT, "1500000", true)),
 		fix(Take(B, NCT, "2000000", false)),
-		fix(Take(B, NCT, "010", false)),    // numeral spellings the integer parser accepts
+		fix(Take(B, NCT, "010", false)), // numeral spellings the integer parser accepts
 		fix(Take(B, NCT, "0x10", false)),
 		fix(Take(B, NCT, "1_0", true)),
 		fix(Take(B, NCT, "+12", false)),
@@ -195,6 +195,8 @@ func Market() Spec {
 		CancelOrder(C, C, 0),
 		Buy(D, "B0-half-tradable", BuySpec{Seller: B, K: 0, Qty: "0.5", DAR: true, MaxFee: I64(100)}),
 		Buy(D, "B0-all-retire", BuySpec{Seller: B, K: 0, MaxFee: I64(100)}),
+		Buy(D, "B0-all-padded-spelling", BuySpec{Seller: B, K: 0, Qty: "=padded", DAR: true, MaxFee: I64(100)}),
+		Buy(D, "C0-all-sci-spelling", BuySpec{Seller: C, K: 0, Qty: "=sci", DAR: true, MaxFee: I64(100)}),
 		Buy(C, "B1-all-retire", BuySpec{Seller: B, K: 1, MaxFee: I64(100)}),
 		Buy(D, "C0-eps", BuySpec{Seller: C, K: 0, Qty: Eps, BidAdj: 1, DAR: true, MaxFee: I64(1000000)}),
 		Buy(D, "B0+C0", BuySpec{Seller: B, K: 0, Qty: "0.25", DAR: true, MaxFee: I64(100)}, BuySpec{Seller: C, K: 0, Qty: "0.25", DAR: true, MaxFee: I64(100)}),
@@ -366,7 +368,7 @@ func BasketLarge() Spec {
 		fix(BankSend("BankSend(B->C,1NCT)", B, C, coin(NCT, 1))),
 	}
 	return Spec{Name: "basket-large", Seeds: []explore.Seed{PreparedSeed("prepared")},
-		Events: good, DepthQuick: 5, DepthThor: 7, ExpectFail: expectFail("Put(B,eco.uC.NCT,"+B1+":"+Big35+")"), MinStates: 100}
+		Events: good, DepthQuick: 5, DepthThor: 7, ExpectFail: expectFail("Put(B,eco.uC.NCT," + B1 + ":" + Big35 + ")"), MinStates: 100}
 }
 
 // Mixed: a cross-module alphabet (issuance, send, retire, basket, market,
